@@ -162,6 +162,18 @@ def judge(name, seed, L, kind, prop):
     r = close(d0, d2, L, 5e-3)
     if r:
         return f"{tag}: reordering the atoms changes the descriptor: {r}", "described"
+    # a reordering that keeps the SEQUENCE of elements (swaps atoms of the same element within the same part)
+    pj = np.arange(len(n))
+    for z in np.unique(n):
+        for side in ((True, False) if part is not None else (None,)):
+            idx = np.where((n == z) & ((part == side) if part is not None else True))[0]
+            if len(idx) > 1:
+                pj[idx] = idx[nrng.permutation(len(idx))]
+    if not np.array_equal(pj, np.arange(len(n))):
+        d5 = describe(kind, sht, n[pj], p[pj] + t, part[pj] if part is not None else None, prop)
+        r = close(d0, d5, L, 5e-3)
+        if r:
+            return f"{tag}: swapping atoms of the same element (order {pj.tolist()}) changes the descriptor: {r}", "described"
     # a rotation that maps the sampling grid onto itself: no discretisation error at all
     c = p.mean(axis=0)
     if kind == "stock":
@@ -432,6 +444,9 @@ OUTCOMES = {}
 
 
 def run_case(c):
+    if c[0] == "transform-exact":
+        from harness.props import c07
+        return c07.judge(c[1], c[2])
     what, name, seed, L, kind, prop = c
     if what == "pose":
         r, outcome = judge(name, seed, L, kind, prop)
@@ -448,6 +463,18 @@ def run_case(c):
 
 def search(ctx, budget):
     drift.report(ctx, ["interpolate/_density"])
+    # the descriptors rest on the transform being exact at the l_max they are computed with (C07's statement, re-checked here for
+    # the degrees this property quantifies over)
+    from harness.props import c07
+    for L in (4, 5, 6, 8, 10, 12):
+        seed = ctx.rng.randrange(1 << 30)
+        ctx.case({"case": ["transform-exact", L, seed]})
+        try:
+            r = c07.judge(L, seed)
+        except Exception as ex:  # noqa
+            r = f"L={L}: raised {type(ex).__name__}: {ex}"
+        if r:
+            ctx.fail(f"C09:transform:l_max={L}", f"the transform the descriptors are built on is not exact at l_max={L}: {r}", {"case": ["transform-exact", L, seed]})
     devnull = os.open(os.devnull, os.O_WRONLY)
     saved = os.dup(2)
     os.dup2(devnull, 2)         # the compiled kernel prints 'Exception ignored' for every swallowed ZeroDivisionError
